@@ -315,7 +315,11 @@ func runC13(c *Ctx) {
 		for _, g := range graphs {
 			for _, fast := range []bool{false, true} {
 				alpha := c13Alphabet(fast)
-				hs, ss := c13Seqs(alpha, hl), c13Seqs(alpha, sl)
+				h, sq := hl, sl
+				if j.picks == nil && j.sh.Hidden == 2 {
+					h, sq = 2, 2 // all 2^15 two-hidden digraphs: histories and continuations of length <= 2
+				}
+				hs, ss := c13Seqs(alpha, h), c13Seqs(alpha, sq)
 				for _, variant := range [][2]bool{{false, false}, {true, true}} {
 					n := c13Eval(c, j.sh, g, variant[0], variant[1], fast, hs, ss)
 					pairs += n
@@ -336,7 +340,7 @@ func runC13(c *Ctx) {
 	c.States = int64(len(c.distinct))
 	c.Sample(map[string]interface{}{"network": c13Spec(c13Shape{1}, 0b10_01_0110, true, false).Short(), "history": opsString([]int{opLoad1, opRecursive}), "continuation": opsString([]int{opLoad2, opFwd1, opFwd2})})
 	c.Rule = fmt.Sprintf("networks: ALL digraphs over {bias, input, output, hidden} (4 neuron->neuron edges incl. self-loops and output->hidden, 4 sensor->neuron edges; the output precedes the hidden node in the node list)%s, each in two variants (plain; cycle-closing edges flagged recurrent + mixed activation types); solvers: standard Network and fast solver built from the same genome; alphabet: Load(0.5), Load(-1.5), Forward(1), Forward(2), Recursive, Relax(3,1e-9) [fast], Depth(0), Depth(1) [network]; every history h of length 1..%d and every continuation s of length 1..%d: outputs, boolean results and errors of every step of s after (h; Flush) must equal those on a fresh instance bit for bit. states = distinct (network, solver, variant), transitions = (h,s) pairs compared",
-		map[bool]string{true: " plus six hand-picked two-hidden recurrent networks", false: " and ALL digraphs over {bias, input, output, 2 hidden} (9 + 6 edges)"}[c.Quick()], hl, sl)
+		map[bool]string{true: " plus six hand-picked two-hidden recurrent networks", false: " and ALL digraphs over {bias, input, output, 2 hidden} (9 + 6 edges; histories and continuations of length <= 2 for these)"}[c.Quick()], hl, sl)
 	c.Assume("observations are the outputs, results and errors after every operation (node-internal state is observed only through them)")
 }
 
